@@ -369,6 +369,13 @@ def eval_c16(batches, tier, seed, known, info):
         for name, mut in (('notypes', lambda c: (c['yaml'].__setitem__('types', None), c.__setitem__('cli', [kv for kv in c['cli'] if kv['k'] != 'types']))),
                           ('missing', lambda c: c.__setitem__('yamlState', 'missing')),
                           ('garbage', lambda c: c.__setitem__('yamlState', 'garbage')),
+                          # well-formed YAML that is not a configuration (a value of the wrong shape)
+                          ('listmap', lambda c: c.__setitem__('yamlState', 'garbage:listmap')),
+                          ('elemmap', lambda c: c.__setitem__('yamlState', 'garbage:elemmap')),
+                          ('nested', lambda c: c.__setitem__('yamlState', 'garbage:nested')),
+                          ('sortword', lambda c: c.__setitem__('yamlState', 'garbage:sort')),
+                          ('kvlist', lambda c: c.__setitem__('yamlState', 'garbage:kvlist')),
+                          ('scalardoc', lambda c: c.__setitem__('yamlState', 'garbage:scalar')),
                           ('blanktypes', lambda c: (c['yaml'].__setitem__('types', None), c['cli'].append({'k': 'types', 'v': '  '})))):
             c = copy.deepcopy(b['case'])
             mut(c)
